@@ -146,6 +146,12 @@ def r2(ctx):
             vv = vv or parsed_value_atom(p)
         ok = la is not None and la[0].get(vv) == 1 and la[0].get(F(P("delta"), "delta")) == -1 and la[1] == 0 and len(la[0]) == 2
         rep.check(ok, "decrement[delta<=value]", "delta <= value -> value - delta", "decrement with delta <= value stores %s (must be value - delta)" % short(a, 100), b0.loc())
+    elif list(cases) == [None] and isinstance(cases[None], tuple) and cases[None][0] == "call" and cases[None][1].endswith("saturating_sub"):
+        vv = None
+        for p in paths:
+            vv = vv or parsed_value_atom(p)
+        a = cases[None]
+        rep.check(a[3] == (vv, F(P("delta"), "delta")), "decrement[saturating_sub]", "value.saturating_sub(delta) = max(value - delta, 0)", "decrement computes saturating_sub(%s): the operands must be (value, delta)" % ", ".join(short(x, 40) for x in a[3]), b0.loc())
     else:
         rep.bad("decrement:shape", "cannot evaluate: the decrement arm is not a case split on order(delta, value): %s" % sorted(map(str, cases)), b0.loc())
     return rep
